@@ -136,7 +136,9 @@ class GlomError(Exception):
         # defined in pure-python as well as C
         exc_type = type(exc)
         bases = (GlomError,) if issubclass(GlomError, exc_type) else (exc_type, GlomError)
-        exc_wrapper_type = type(f"GlomError.wrap({exc_type.__name__})", bases, {})
+        # exception types with a __str__ of their own (KeyError, OSError, SyntaxError, ...)
+        # would otherwise hide the target-spec trace
+        exc_wrapper_type = type(f"GlomError.wrap({exc_type.__name__})", bases, {'__str__': GlomError.__str__})
         try:
             wrapper = exc_wrapper_type(*exc.args)
             wrapper.args = exc.args  # __init__ may have rewritten them
